@@ -171,6 +171,8 @@ func lcProgram(b lcBehaviour, backend string, style func(k int) int) string {
 			// a cache key may also be told apart by a request header that vcl_hash adds to the hash
 			sb.WriteString("  if (req.http.X-Vary) { set req.hash += req.http.X-Vary; }\n")
 		}
+		var arms []string
+		arm := func(format string, a ...any) { arms = append(arms, fmt.Sprintf(format, a...)) }
 		for n, r := range b.Reqs {
 			for _, c := range r.Prog {
 				if c.Sub == s && c.Beh != "none" {
@@ -179,19 +181,31 @@ func lcProgram(b lcBehaviour, backend string, style func(k int) int) string {
 					cond := fmt.Sprintf("req.http.X-Req == \"%d\" && req.restarts == %d", n+1, c.At)
 					switch style(k) {
 					case 1: // nested blocks
-						fmt.Fprintf(&sb, "  if (req.http.X-Req == \"%d\") { if (req.restarts == %d) { { %s } } else { log \"other\"; } }\n", n+1, c.At, st)
+						arm("  if (req.http.X-Req == \"%d\") { if (req.restarts == %d) { { %s } } else { log \"other\"; } }\n", n+1, c.At, st)
 					case 2: // through a called subroutine (not for the variants that write scope-specific variables)
 						if c.Beh == "expire" || c.Beh == "ttl0" || c.Beh == "uncacheable" {
-							fmt.Fprintf(&sb, "  if (%s) { %s }\n", cond, st)
+							arm("  if (%s) { %s }\n", cond, st)
 						} else {
 							fmt.Fprintf(&helpers, "sub helper_%d { %s }\n", k, st)
-							fmt.Fprintf(&sb, "  if (%s) { call helper_%d; }\n", cond, k)
+							arm("  if (%s) { call helper_%d; }\n", cond, k)
 						}
 					default:
-						fmt.Fprintf(&sb, "  if (%s) { %s }\n", cond, st)
+						arm("  if (%s) { %s }\n", cond, st)
 					}
 				}
 			}
+		}
+		// Fastly concatenates several declarations of one lifecycle subroutine: sometimes write the arms (they are
+		// mutually exclusive, so their order is immaterial) over two declarations
+		cut := len(arms)
+		if len(arms) >= 2 && style(k+101)%2 == 1 {
+			cut = len(arms) / 2
+		}
+		for i, a := range arms {
+			if i == cut {
+				fmt.Fprintf(&sb, "}\nsub vcl_%s {\n", s)
+			}
+			sb.WriteString(a)
 		}
 		sb.WriteString("}\n")
 	}
